@@ -97,7 +97,11 @@ Definition model_ok (g : graph) (r : run) : bool :=
                               | None => false
                               | Some M =>
                                 match f_path f with
-                                | [] => opt_eqb ent_eqb (assoc_get (f_id f) (snd (st_tabs st M))) (f_ent f)
+                                | [] => match assoc_get (f_id f) (snd (st_tabs st M)) with
+                                        | None => shared_with_nested M c   (* a leak may resolve it: C07 *)
+                                                  || opt_eqb ent_eqb None (f_ent f)
+                                        | Some e => opt_eqb ent_eqb (Some e) (f_ent f)
+                                        end
                                 | _ => match find_nested M (f_path f) with
                                        | None => false
                                        | Some Sc =>
@@ -146,9 +150,15 @@ Definition spec_ok (g : graph) (r : run) : bool :=
                             | None => false
                             | Some M =>
                               match f_path f with
-                              | [] => match f_ent f with
-                                      | Some e => in_b (f_id f) e (scope c g M)
-                                      | None => negb (str_in (f_id f) (map fst (scope c g M)))
+                              | [] => match lookup (f_id f) (scope c g M) with
+                                      | Some _ => match f_ent f with
+                                                  | Some e => in_b (f_id f) e (scope c g M)
+                                                  | None => false
+                                                  end
+                                      | None => match f_ent f with
+                                                | None => true
+                                                | Some _ => shared_with_nested M c   (* C07's leak *)
+                                                end
                                       end
                               | _ => match find_nested M (f_path f) with
                                      | None => false
